@@ -47,6 +47,34 @@ theorem cache_sound_run (ops : List Op) : CacheSound (run empty ops).1 :=
 theorem refines_multimap (ops : List Op) : (run empty ops).2 = (Spec.run Spec.empty ops).2 :=
   (run_refines R_empty ops).1
 
+/-- **Reading a name returns its values joined by commas** — stated on the implementation model alone: after any
+    history, whenever `h[n]` returns a value (from the combined-value cache or freshly joined), that value is the
+    comma-join of what `get_list(n)` returns at that moment, the list is non-empty, and the read changes nothing that
+    `get_list`/`get_all`/iteration can see. -/
+theorem get_is_joined_list (ops : List Op) (n v : Str) (h' : Headers)
+    (hg : getItem (run empty ops).1 n = .ok (v, h')) :
+    v = joinWith [cComma] (getList (run empty ops).1 n) ∧ getList (run empty ops).1 n ≠ [] ∧
+      h'.asList = (run empty ops).1.asList := by
+  obtain ⟨_, r⟩ := run_refines R_empty ops
+  have w := WF_run WF_empty ops
+  unfold getItem at hg
+  unfold getList
+  cases hc : dget (normalize n) (run empty ops).1.cache with
+  | some v' =>
+    obtain ⟨vs, h1, h2⟩ := r.cache _ _ hc
+    simp only [hc] at hg
+    cases hg
+    simp only [h1, Option.getD_some]
+    exact ⟨h2, w.nonempty _ (mem_of_dget _ _ _ h1), trivial⟩
+  | none =>
+    cases ha : dget (normalize n) (run empty ops).1.asList with
+    | some vs =>
+      simp only [hc, ha] at hg
+      cases hg
+      simp only [Option.getD_some]
+      exact ⟨trivial, w.nonempty _ (mem_of_dget _ _ _ ha), trivial⟩
+    | none => simp [hc, ha] at hg
+
 /-- **Present ⇒ deletable**: in every reachable state, a name reported present can be deleted
     (this is the clause the pre-fix code violated: `del` raised `KeyError` from the cache dict). -/
 theorem present_deletable (ops : List Op) (n : Str) :
@@ -216,6 +244,10 @@ example :
 
 /-! non-vacuity of `copy_behaves_as_multimap`: a reachable state with a stale-prone cache whose copy succeeds -/
 example : ∃ c, copy (run empty [Op.add [65] [49], Op.get [65], Op.add [97] [50], Op.set [66] [51]]).1 = .ok c :=
+  ⟨_, rfl⟩
+
+/-! non-vacuity of `get_is_joined_list`: a cached two-value read -/
+example : ∃ h', getItem (run empty [Op.add [65] [49], Op.add [97] [50], Op.get [65]]).1 [97] = .ok ([49, 44, 50], h') :=
   ⟨_, rfl⟩
 
 /-! non-vacuity of `Valid`: a reachable multi-valued, multi-name state satisfies it -/
